@@ -108,6 +108,52 @@ func runC09(c *Ctx) error {
 				}
 			}
 		}
+		// exponent sweep: results whose length is at, just below and well below the modulus length (a result with k
+		// leading zero octets has probability 256^-k, so these classes are searched for with cheap small exponents)
+		lead := func(v *big.Int) string {
+			bl := v.BitLen()
+			switch {
+			case bl > 8*(L0-1):
+				return "full"
+			case bl == 8*(L0-1):
+				return "exactly-one-zero-octet-top-bit-set"
+			case bl > 8*(L0-2):
+				return "one-zero-octet"
+			case bl > 8*(L0-4):
+				return "2-3-zero-octets"
+			}
+			return "short"
+		}
+		t0 := dh.StrToType(dhNames[g])
+		for x := 0; x < c.N(9000, 120000); x++ {
+			xb := big.NewInt(int64(x))
+			v := new(big.Int).Exp(two, xb, p)
+			got := t0.GetPublicValue(xb)
+			r.ImplRuns++
+			cl := lead(v)
+			if cl != "full" || x%64 == 0 {
+				r.Count(fmt.Sprintf("(dh_public %s %s)", g, hx(xb.Bytes())), x > 2, "group"+g+":public-sweep:"+cl)
+			}
+			if want := padTo(v.Bytes(), L0); !bytes.Equal(got, want) {
+				fail("public value is not 2^x mod the RFC prime as a big-endian string of the modulus length", fmt.Sprintf("(dh_public %s %s)", g, hx(xb.Bytes())), okS(Hx(want)), okS(Hx(got)))
+			}
+			for _, y := range []int64{3, 5, 65537} {
+				if x%3 != int(y%3) && !c.Thor {
+					continue
+				}
+				yb := big.NewInt(y)
+				v := new(big.Int).Exp(yb, xb, p)
+				got := t0.GetSharedKey(xb, yb)
+				r.ImplRuns++
+				cl := lead(v)
+				if cl != "full" {
+					r.Count(fmt.Sprintf("(dh_shared %s %s %s)", g, hx(xb.Bytes()), hx(yb.Bytes())), x > 2, "group"+g+":shared-sweep:"+cl)
+				}
+				if want := padTo(v.Bytes(), L0); !bytes.Equal(got, want) {
+					fail("shared secret is not y^x mod the RFC prime as a big-endian string of the modulus length", fmt.Sprintf("(dh_shared %s %s %s)", g, hx(xb.Bytes()), hx(yb.Bytes())), okS(Hx(want)), okS(Hx(got)))
+				}
+			}
+		}
 		// agreement between two parties, incl. results with leading zero octets (searched for)
 		zeroLead := 0
 		for i, n := 0, c.N(40, 2000); i < n; i++ {
